@@ -20,7 +20,7 @@ loop-inside-scatter.cwl: same steps, same port sharing):
     /l/j-back-propagation-transformer  ForwardTransformer      j: C_j -> A_j        (variable without loop source: carried along)
   around it:
     no scatter:  SRC_i = workflow input port (tag 0), F_o -> /o-collector -> OUT
-    scatter:     /i-scatter ScatterStep IN -> SRC_i (tags 0.0, 0.1, ...); /l/o-gather GatherStep F_o -> G_o; G_o -> /o-collector -> OUT
+    scatter:     /l/i-scatter ScatterStep IN_i -> SRC_i (tags 0.0, 0.1, ...); /l/o-gather GatherStep F_o -> G_o; G_o -> /o-collector -> OUT
 
 A_v has three writers (input forwarder, back-propagation forwarder, loop terminator), D_o has two
 (output forwarder, skip port of the loop condition) and two readers (loop output step,
@@ -514,10 +514,11 @@ def graph_specs(tier: str):
         for d in (0, 3, 6):
             add("1inst_mid+%d" % d, method_all, False, 1, False, mid((d,)), 4)
         add("2vars_start", method_all, True, 1, False, [START], 3, split=True)
-        for d in (0, 4):
-            add("2vars_mid+%d" % d, method_all, True, 1, False, mid((d,)), 4)
+        for ph in mid((0, 4)):  # one obligation per window (about 2000 paths each)
+            add("2vars_%s%d+%d" % ph, method_all, True, 1, False, [ph], 4)
         add("scatter1_start", method_all, False, 1, True, [START], 3)
-        add("scatter1_mid", method_all, False, 1, True, mid((0, 4)), 4)
+        for ph in mid((0, 4)):
+            add("scatter1_%s%d+%d" % ph, method_all, False, 1, True, [ph], 4)
         add("scatter2_start", method_all, False, 2, True, [START], 2, mx=3)
         for ph in [("B", 1, 0), ("B", 2, 0), ("B", 3, 0), ("M", 1, 0), ("M", 2, 0), ("O", 1, 0), ("O", 2, 0), ("T", 1, 0)]:
             add("scatter2_%s%d" % (ph[0], ph[1]), method_all, False, 2, True, [ph], 3, mx=3)
